@@ -9,6 +9,9 @@ Graph.tla in C11, Binned.tla in C10.)
   Signature.tla   mutation types of single-base substitutions in their sequence context (variants/mutation_signature.py)
   Matrix.tla      numeric matrices as delimited text: parse_matrix and matrix_to_csv (io/matrix_dump.py)
   Annotation.tla  gene / transcript / exon tables and their ids from GTF and GFF3 attribute text (datatypes/gtf.py)
+  Regex.tla       motif patterns (letters, '.', classes, gaps) rolled over ragged sequences (sequence/string_matcher.py)
+  Join.tla        left join of two key-grouped streams (streams/left_join.py)
+  Windows.tla!Index   k-mer index and lookup (sequence/indexing/kmer_indexing.py), on the states of MC_C13
 """
 import os
 import json
@@ -127,9 +130,118 @@ def check_matrix(v):
     return {"n": n, "nt": [json.dumps(["matrix", data, rows, cols])] if len(data) > 1 or len(cols) > 1 else [], "bad": bad}
 
 
+LET = "ACT"
+
+
+def check_regex(v):
+    """One state of spec/Regex.tla: the pattern rolled over the ragged sequences."""
+    import bionumpy as bnp
+    from bionumpy.sequence.string_matcher import RegexMatcher
+    from bionumpy.encodings.alphabet_encoding import AlphabetEncoding
+    rows, pat = v["rows"], v["pat"]
+    texts = ["".join(LET[c - 1] for c in r) for r in rows]
+
+    def render(e):
+        if e["kind"] == "lit":
+            return LET[e["c"] - 1]
+        if e["kind"] == "any":
+            return "."
+        if e["kind"] == "cls":
+            return "[" + "".join(LET[c - 1] for c in sorted(e["set"])) + "]"
+        return ".{%d,%d}" % (e["lo"], e["hi"])
+    ptxt = "".join(render(e) for e in pat)
+    if not any(texts):
+        return {"n": 0, "nt": [], "bad": []}
+    bad = []
+    want = [[bool(x) for x in r] for r in v["result"]]
+    for ename, enc in (("ACT", AlphabetEncoding("ACT")), ("ACGT", bnp.DNAEncoding)):
+        o = outcome(lambda: [[bool(x) for x in r] for r in RegexMatcher(ptxt, encoding=enc).rolling_window(bnp.as_encoded_array(texts, enc), mode="same").tolist()])
+        if o != ("ok", want):
+            where = None
+            if o[0] == "ok" and [len(r) for r in o[1]] == [len(r) for r in want]:
+                for r, (w, g) in enumerate(zip(want, o[1])):
+                    for i, (a, b) in enumerate(zip(w, g)):
+                        if a != b and where is None:
+                            minlen = sum(1 if e["kind"] != "gap" else e["lo"] for e in pat)
+                            where = {"row": r, "pos": i, "want": a, "got": b, "window_runs_past_the_row": i + minlen > len(w), "last_row": r == len(want) - 1}
+            bad.append({"what": "RegexMatcher differs from matching the pattern inside each row", "tags": {"spec": "Regex", "op": "regex", "encoding": ename,
+                        "past_row_end": bool(where and where["window_runs_past_the_row"])},
+                        "vector": v, "case": {"texts": texts, "pattern": ptxt}, "expected": want, "observed": where or o})
+    return {"n": 2, "nt": [json.dumps(["regex", rows, ptxt])] if len(rows) > 1 else [], "bad": bad}
+
+
+def check_join(v):
+    """One completed behaviour of spec/Join.tla replayed into streams.left_join."""
+    from bionumpy.streams.left_join import left_join
+    left, right = v["left"], v["right"]
+
+    def run_():
+        return [[k, d] for k, _l, d in left_join(iter([("k%d" % k, ("L", k)) for k in left]), iter([("k%d" % k, "R") for k in right]))]
+    o = outcome(run_)
+    bad = []
+    tags = {"spec": "Join", "op": "left_join", "joinable": v["joinable"]}
+    if v["status"] == "done":
+        want = [["k%d" % k, (d if d == "R" else None)] for k, d in v["out"]]
+        if o != ("ok", want):
+            bad.append({"what": "left_join differs from pairing every left group with the right group of its key", "tags": tags, "vector": v, "expected": want, "observed": o})
+    elif o[0] == "ok":
+        bad.append({"what": "left_join completed although the right side has groups the left side lacks (or in another order): they are dropped silently",
+                    "tags": tags, "vector": v, "expected": "an error", "observed": o})
+    return {"n": 1, "nt": [json.dumps(["join", left, right])] if right else [], "bad": bad}
+
+
+def check_kmer_index(v):
+    """One state of MC_C13 (Windows.tla!Index): the k-mer index and the lookup of the sequences that hold a k-mer."""
+    import bionumpy as bnp
+    from bionumpy.sequence.indexing.kmer_indexing import KmerIndex, KmerLookup
+    rows = v["rows"]
+    alpha = "ACGT"
+    texts = ["".join(alpha[c] for c in r) for r in rows]
+    bad, n = [], 0
+    for k in range(1, len(v["index"]) + 1):
+        if not any(len(t) >= k for t in texts):
+            continue
+        seqs = bnp.as_encoded_array(texts, bnp.DNAEncoding)
+        want = {"".join(alpha[c] for c in km): sorted(j - 1 for j in js) for km, js in v["index"][k - 1]}
+
+        def code(km):
+            # the k-mer as the integer the index is keyed by (asking with a str converts a one-element array with int(), which the numpy of
+            # this sandbox refuses: environment, section 5)
+            from bionumpy.sequence import get_kmers
+            return int(get_kmers(bnp.as_encoded_array(km, bnp.DNAEncoding), k).raw().ravel()[0])
+
+        def run_():
+            idx = KmerIndex.create_index(seqs, k)
+            lk = KmerLookup.create_lookup(seqs, k=k)
+            got = {km: [int(x) for x in idx.get_indices(code(km))] for km in want}
+            absent = "".join("T" for _ in range(k))
+            extra = [int(x) for x in idx.get_indices(code(absent))] if absent not in want else []
+            looked = {km: lk.get_sequences(code(km)).tolist() for km in want}
+            return got, extra, looked
+        o = outcome(run_)
+        n += 1
+        wl = {km: [texts[j] for j in js] for km, js in want.items()}
+        if o != ("ok", (want, [], wl)):
+            bad.append({"what": "k-mer index / lookup differs from the rows that hold the k-mer", "tags": {"spec": "Windows.Index", "op": "kmer-index", "k": k},
+                        "vector": {"rows": rows}, "case": {"texts": texts}, "expected": str((want, wl))[:300], "observed": str(o)[:400]})
+    return {"n": n, "nt": [json.dumps(["kidx", rows])] if len(rows) > 1 else [], "bad": bad}
+
+
 def run(ctx):
     quick = ctx.tier == "quick"
     first = None
+    res = ctx.tlc("MC_Regex", tag="MC_Regex", spec="Spec", workers=8,
+                  constants={"Letters": [1, 2, 3], "NRows": 2, "MaxLen": 3 if quick else 4, "Patterns": "<- PatSmall" if quick else "<- PatSet"},
+                  invariants=["RowLocal", "NothingPastTheEnd", "Emit"], properties=["Local"], coverage=True)
+    ctx.require_actions(res, "MC_Regex", ["NewRow", "AddLetter"])
+    ctx.absorb(core.pmap(check_regex, res.vectors, chunk=100))
+    res = ctx.tlc("MC_Join", tag="MC_Join", spec="Spec", workers=4, constants={"Keys": [1, 2, 3] if quick else [1, 2, 3, 4], "MaxLeft": 3 if quick else 4, "MaxRight": 2 if quick else 3},
+                  invariants=["Right", "PrefixRight", "Emit"], coverage=True)
+    ctx.require_actions(res, "MC_Join", ["Step", "Finish"])
+    ctx.absorb(core.pmap(check_join, res.vectors, chunk=100))
+    res = ctx.tlc("MC_C13", tag="MC_C13_index", spec="Spec", workers=8, constants={"NRows": 3, "MaxLen": 2 if quick else 3, "W": 2, "Letters": [0, 1]},
+                  invariants=["IndexAgreesWithCounts", "Emit"])
+    ctx.absorb(core.pmap(check_kmer_index, res.vectors, chunk=50))
     for refs, flank, ms in (("R1", 1, 2), ("R2", 1, 2), ("R1", 2, 2)) if quick else (("R1", 1, 3), ("R2", 1, 3), ("R1", 2, 3), ("R2", 2, 2)):
         res = ctx.tlc("MC_Signature", tag="MC_Signature_%s_%d" % (refs, flank), spec="Spec", workers=4,
                       constants={"Refs": "<- " + refs, "Flank": flank, "MaxSnps": ms},
@@ -166,6 +278,12 @@ def replay(d):
     v = (d.get("vectors") or [d.get("vector")])[0]
     if d["tags"].get("spec") == "Matrix":
         r = check_matrix(v)
+    elif d["tags"].get("spec") == "Regex":
+        r = check_regex(v)
+    elif d["tags"].get("spec") == "Join":
+        r = check_join(v)
+    elif d["tags"].get("spec") == "Windows.Index":
+        r = check_kmer_index(v)
     elif d["tags"].get("spec") == "Annotation":
         w = os.path.join(core.VERIF, ".work", "replay")
         os.makedirs(w, exist_ok=True)
